@@ -346,6 +346,9 @@ def _evidently_immutable(e, fn_node, depth=0):
             return True
         return False
     if isinstance(e, ast.Name):
+        a = fn_node.args
+        if e.id in {x.arg for x in a.posonlyargs + a.args + a.kwonlyargs} and not _defs_of(fn_node, e.id):
+            return True  # a memoised function's arguments are hashable, i.e. (by convention) immutable
         defs = _defs_of(fn_node, e.id)
         return bool(defs) and all(d is not None and _evidently_immutable(d, fn_node, depth + 1) for d in defs)
     if isinstance(e, ast.Subscript):
